@@ -119,8 +119,37 @@ def overlap_cases(draw):
             "algo_pick": draw(st.integers(0, 3))}
 
 
+@st.composite
+def pinned_fg_cases(draw):
+    """ilp_fgdp with one or two computations pinned (hosting cost 0) on an agent at ANY position of the agent
+    list, ample capacities and non-zero loads: the free neighbours of a pinned factor must follow the trade-off
+    between that factor and their other factors (seeded change C24-m6 left the co-location variable of a pinned
+    factor unconstrained for every agent after the first non-host)."""
+    nv = draw(st.integers(2, 3))
+    dcop = draw(gen.dcops(min_vars=nv, max_vars=nv, max_dom=2, max_constraints=5 - nv, arities=(1, 2),
+                          kinds=("matrix",), var_costs=False, objectives=("min",), costs=gen.nonneg_int_costs,
+                          str_domains=False))
+    na = draw(st.sampled_from([2, 2, 3]))
+    route = draw(st.sampled_from([1, 1, 2, 0.5]))
+    agents = [{"name": AGENT_NAMES[i], "default_route": route, "routes": {}, "capacity": 1000,
+               "default_hosting_cost": draw(st.sampled_from([1, 5, 10, 2.5])), "hosting": []} for i in range(na)]
+    for idx in draw(st.lists(st.integers(0, 4), min_size=1, max_size=2, unique=True)):
+        agents[draw(st.integers(0, na - 1))]["hosting"].append((idx, 0))
+    for i in range(na):
+        for j in range(i + 1, na):
+            if draw(st.integers(0, 2)) == 0:
+                r = draw(st.sampled_from([1, 3, 0.5, 10]))
+                agents[i]["routes"][agents[j]["name"]] = r
+                agents[j]["routes"][agents[i]["name"]] = r
+    return {"dcop": dcop, "graph": "factor_graph", "method": "ilp_fgdp", "agents": agents, "costs": "sym",
+            "footprint": draw(st.lists(st.sampled_from([0, 1, 2, 3]), min_size=5, max_size=5)),
+            "load": draw(st.lists(st.lists(st.sampled_from([1, 2, 4, 10, 0.5]), min_size=5, max_size=5),
+                                  min_size=5, max_size=5)),
+            "algo_pick": draw(st.integers(0, 3))}
+
+
 def case_strategy(tier):
-    return st.one_of(cases(), cases(), cases(), overlap_cases())
+    return st.one_of(cases(), cases(), cases(), overlap_cases(), pinned_fg_cases())
 
 
 _patched = set()
